@@ -17,7 +17,7 @@ class Layout:
     final_eol = False
 
     def gap(self, left, right, need):
-        return " " if need else ""
+        return " " if (need or (left and right and _alnum(left[-1]) and _alnum(right[0]))) else ""
 
     def after_linenum(self):
         return " "
@@ -102,6 +102,35 @@ def _alnum(c):
     return c.isalnum() or c in "$."
 
 
+import re as _re
+
+from vf.cb.names import CB_KEYWORDS as _KW
+
+_KWSET = set(_KW)
+_TAIL = _re.compile(r"[A-Z0-9$.]+$")
+_HEAD = _re.compile(r"[A-Z0-9$.]+")
+
+
+def need_blank(left, right):
+    """Is at least one blank needed between two rendered pieces?
+
+    Color BASIC finds keywords anywhere, so a keyword may touch what follows it (THEN100, FORI=, PRINTA) and a number may
+    touch a following keyword (100ELSE, 1TO5).  A blank is needed after an identifier or number when an identifier follows,
+    and after an identifier when a keyword follows (the README: variables cannot contain keywords).  A number directly
+    followed by a word starting with E (other than ELSE) would read as an exponent."""
+    if not (left and right and _alnum(left[-1]) and _alnum(right[0])):
+        return False
+    lw = _TAIL.search(left).group(0)
+    rw = _HEAD.match(right).group(0)
+    if lw in _KWSET and not lw.endswith("$"):
+        return False  # keyword followed by anything
+    l_is_number = lw.replace(".", "").isdigit() and not _re.search(r"&\s*H\s*[0-9A-F]*$", left)  # hex digits would swallow A-F of a keyword
+    r_is_keyword = rw in _KWSET
+    if l_is_number and r_is_keyword and (not rw.startswith("E") or rw == "ELSE"):
+        return False
+    return True
+
+
 class Renderer:
     def __init__(self, layout=None, paren_unary=False, canonical_clear=False):
         self.L = layout or Layout()
@@ -119,7 +148,7 @@ class Renderer:
             if out == "":
                 out = p
                 continue
-            need = _alnum(out[-1]) and _alnum(p[0])
+            need = need_blank(out, p)
             out += self.L.gap(out, p, need) + p
         return out
 
